@@ -240,6 +240,9 @@ def run(res):
                         % (b + i, semgen.CALLER_LETS, c["type"], c["value_rust"], pat))
         progs.append(e2e.PRELUDE + semgen.DECLS + "fn main() {\n    std::panic::set_hook(Box::new(|_| {}));\n" + "\n".join(body) + "\n}\n")
     out = e2e.compile_many(progs, run=True, tag="c04")
+    # which sub-patterns failed, going by the specification (Spec.frontier on the same triple): an entry must be attached to the
+    # sub-pattern that failed — not to its parent, a sibling or a child that happens to have a well-formed range of its own
+    semstage.model_for([c for c, _, _ in chunk])
     marks = 0
     lay_fail = 0
     rendered_spans = 0
@@ -250,6 +253,13 @@ def run(res):
         src = progs[k]
         results = e2e.parse_case_lines(o.get("stdout", ""))
         for cid, r in results.items():
+            spec = chunk[int(cid)][0]["model"]["frontier"]
+            if spec is not None and [p["node"] for p in r["pushes"]] != [e[0] for e in spec]:
+                lay_fail += 1
+                if lay_fail <= 3:
+                    res.violation("failing-input", "the entries are attached to %s but the sub-patterns that fail are %s (pattern `%s`)"
+                                  % ([p["node"] for p in r["pushes"]], [e[0] for e in spec], chunk[int(cid)][1]),
+                                  {"case": cid, "pattern": chunk[int(cid)][1], "value": chunk[int(cid)][0]["value_rust"], "entries": r["pushes"]})
             # the spans Display handed to the renderer (span log), one per entry, must be the bytes of the text marked
             sp = r.get("spans")
             if r["verdict"] == "fail" and sp is not None and sp and len(sp) == len(r["pushes"]):
